@@ -3,6 +3,7 @@ package checks
 import (
 	"bytes"
 	"fmt"
+	"sort"
 	"strings"
 
 	"github.com/ipfs/go-cid"
@@ -11,6 +12,7 @@ import (
 	cidlink "github.com/ipld/go-ipld-prime/linking/cid"
 
 	"verif/harness/gen"
+	"verif/harness/model"
 	"verif/harness/store"
 )
 
@@ -43,7 +45,9 @@ func (t treeSpec) nodes() int {
 	return n
 }
 
-var treeKinds = []string{"f1", "fN", "sym", "dir", "hamt"}
+// "dirU": a plain directory whose block lists its links in descending name
+// order (a legal block: only encoders sort, decoders keep the wire order)
+var treeKinds = []string{"f1", "fN", "sym", "dir", "dirU", "hamt"}
 
 func kindRank(k string) int {
 	for i, x := range treeKinds {
@@ -79,7 +83,7 @@ func enumTrees(maxNodes int) []treeSpec {
 			return nil
 		}
 		for _, k := range treeKinds {
-			if k == "dir" || k == "hamt" {
+			if k == "dir" || k == "dirU" || k == "hamt" {
 				for _, f := range forests(budget-1, 0, 6) {
 					out = append(out, treeSpec{Kind: k, Children: f})
 				}
@@ -146,7 +150,7 @@ func (t treeSpec) build(s *store.Store, seed *int) (*builtTree, error) {
 			return nil, err
 		}
 		return &builtTree{Kind: "sym", Cid: l.(cidlink.Link).Cid, Size: sz, Content: []byte(target)}, nil
-	case "dir", "hamt":
+	case "dir", "dirU", "hamt":
 		bt := &builtTree{Kind: t.Kind, Children: map[string]*builtTree{}}
 		names := childNames(t.Kind)
 		var es []gen.DirEntry
@@ -165,6 +169,19 @@ func (t treeSpec) build(s *store.Store, seed *int) (*builtTree, error) {
 		} else if t.Kind == "hamt" {
 			// an empty sharded directory can only come from the reference writer
 			bt.Cid, bt.Size, err = gen.RefShard(s, 8, nil)
+		} else if t.Kind == "dirU" {
+			pn := &model.PBNode{Data: []byte{0x08, 0x01}, HasData: true}
+			sorted := append([]gen.DirEntry{}, es...)
+			sort.Slice(sorted, func(i, j int) bool { return sorted[i].Name > sorted[j].Name })
+			total := uint64(0)
+			for _, e := range sorted {
+				pn.Links = append(pn.Links, model.PBLink{Cid: e.Cid, Name: e.Name, HasName: true, Tsize: e.Tsize, HasTsize: true})
+				total += e.Tsize
+			}
+			blk := model.EncodePB(pn)
+			bt.Cid, _ = gen.V1PB.Sum(blk)
+			s.Put(bt.Cid, blk)
+			bt.Size = total + uint64(len(blk))
 		} else {
 			bt.Cid, bt.Size, err = gen.OursDir(s, es)
 		}
